@@ -33,6 +33,40 @@ Section Generic.
   Proof. reflexivity. Qed.
   Lemma Manly_derivative_tie p x : Manly_derivative O (lmbda p) x = derivative_raw O KManly p x.
   Proof. reflexivity. Qed.
+  (* the range properties (option T * option T, None = infinite bound) *)
+  Lemma BoxCox_denormalize_range_tie p : BoxCox_denormalize_range O (lmbda p) = denorm_range O KBoxCox p.
+  Proof. reflexivity. Qed.
+  Lemma BoxCoxShift_normalize_range_tie p : BoxCoxShift_normalize_range O (shift p) = norm_range O KBoxCoxShift p.
+  Proof. reflexivity. Qed.
+  Lemma BoxCoxShift_denormalize_range_tie p : BoxCoxShift_denormalize_range O (lmbda p) = denorm_range O KBoxCoxShift p.
+  Proof. reflexivity. Qed.
+  Lemma YeoJohnson_denormalize_range_tie p : YeoJohnson_denormalize_range O (lmbda p) = denorm_range O KYeoJohnson p.
+  Proof. reflexivity. Qed.
+  Lemma Modulus_denormalize_range_tie p : Modulus_denormalize_range O (lmbda p) = denorm_range O KModulus p.
+  Proof. reflexivity. Qed.
+  Lemma Manly_denormalize_range_tie p : Manly_denormalize_range O (lmbda p) = denorm_range O KManly p.
+  Proof. reflexivity. Qed.
+  (* the source's ranges by class; class attributes that are not functions: (0.0, inf) for LogNormal / BoxCox
+     normalize_range, (-inf, inf) otherwise *)
+  Definition src_norm_range (k : nkind) (p : npar T) : option T * option T :=
+    match k with
+    | KLogNormal | KBoxCox => (Some (n0 O), None)
+    | KBoxCoxShift => BoxCoxShift_normalize_range O (shift p)
+    | _ => (None, None)
+    end.
+  Definition src_denorm_range (k : nkind) (p : npar T) : option T * option T :=
+    match k with
+    | KBoxCox => BoxCox_denormalize_range O (lmbda p)
+    | KBoxCoxShift => BoxCoxShift_denormalize_range O (lmbda p)
+    | KYeoJohnson => YeoJohnson_denormalize_range O (lmbda p)
+    | KModulus => Modulus_denormalize_range O (lmbda p)
+    | KManly => Manly_denormalize_range O (lmbda p)
+    | _ => (None, None)
+    end.
+  Lemma src_norm_range_tie k p : src_norm_range k p = norm_range O k p.
+  Proof. destruct k; reflexivity. Qed.
+  Lemma src_denorm_range_tie k p : src_denorm_range k p = denorm_range O k p.
+  Proof. destruct k; reflexivity. Qed.
 End Generic.
 
 (* through log1p / expm1: at R *)
@@ -98,35 +132,41 @@ Proof. destruct k; try reflexivity. apply YeoJohnson_denormalize_tie. Qed.
 Lemma src_derivative_tie k p x : src_derivative k p x = derivative_raw Rops k p x.
 Proof. destruct k; reflexivity. Qed.
 
-(* ---- the main theorems about the translated source formulas *)
-Theorem src_denorm_norm k p x : in_range Rops (norm_range Rops k p) x = true ->
-  in_range Rops (denorm_range Rops k p) (src_normalize k p x) = true /\
+(* ---- the main theorems about the translated source formulas and the translated source ranges *)
+Notation sNR k p := (src_norm_range Rops k p).
+Notation sDR k p := (src_denorm_range Rops k p).
+Theorem src_denorm_norm k p x : in_range Rops (sNR k p) x = true ->
+  in_range Rops (sDR k p) (src_normalize k p x) = true /\
   src_denormalize k p (src_normalize k p x) = x.
 Proof.
+  rewrite src_norm_range_tie, src_denorm_range_tie.
   intros H. rewrite src_denormalize_tie, src_normalize_tie. apply in_range_R in H. destruct (coreA k p x H) as [H1 H2].
   split; [apply in_range_R; exact H1|exact H2].
 Qed.
-Theorem src_norm_denorm k p y : in_range Rops (denorm_range Rops k p) y = true ->
-  in_range Rops (norm_range Rops k p) (src_denormalize k p y) = true /\
+Theorem src_norm_denorm k p y : in_range Rops (sDR k p) y = true ->
+  in_range Rops (sNR k p) (src_denormalize k p y) = true /\
   src_normalize k p (src_denormalize k p y) = y.
 Proof.
+  rewrite src_norm_range_tie, src_denorm_range_tie.
   intros H. rewrite src_normalize_tie, src_denormalize_tie. apply in_range_R in H. destruct (coreB k p y H) as [H1 H2].
   split; [apply in_range_R; exact H1|exact H2].
 Qed.
 Theorem src_strictly_increasing k p x1 x2 :
-  in_range Rops (norm_range Rops k p) x1 = true -> in_range Rops (norm_range Rops k p) x2 = true ->
+  in_range Rops (sNR k p) x1 = true -> in_range Rops (sNR k p) x2 = true ->
   x1 < x2 -> src_normalize k p x1 < src_normalize k p x2.
-Proof. rewrite !src_normalize_tie. apply strictly_increasing. Qed.
+Proof. rewrite src_norm_range_tie, !src_normalize_tie. apply strictly_increasing. Qed.
 Theorem src_ranges k p y :
-  (exists x, in_range Rops (norm_range Rops k p) x = true /\ src_normalize k p x = y) <->
-  in_range Rops (denorm_range Rops k p) y = true.
+  (exists x, in_range Rops (sNR k p) x = true /\ src_normalize k p x = y) <->
+  in_range Rops (sDR k p) y = true.
 Proof.
+  rewrite src_norm_range_tie, src_denorm_range_tie.
   rewrite <- image_is_range. split; intros [x [H E]]; exists x; (split; [exact H|]);
     [rewrite <- src_normalize_tie|rewrite src_normalize_tie]; exact E.
 Qed.
-Theorem src_derivative_exact k p x : in_range Rops (norm_range Rops k p) x = true -> exact_branch k p x ->
+Theorem src_derivative_exact k p x : in_range Rops (sNR k p) x = true -> exact_branch k p x ->
   is_derive (src_normalize k p) x (src_derivative k p x).
 Proof.
+  rewrite src_norm_range_tie.
   intros H E. rewrite src_derivative_tie. apply (is_derive_ext (normalize_raw Rops k p)).
   - intros t. symmetry. apply src_normalize_tie.
   - apply derivative_exact; assumption.
